@@ -10,7 +10,7 @@ def _configs(tier):
     out = []
     ns = [2] if tier == "quick" else [2, 3]
     for n in ns:
-        cat = profile_catalogue(tier, n)
+        cat = profile_catalogue(tier, n, heavy=(tier == "quick"))
         if n == 3:
             cat = cat[:4] + cat[-6:-2]
         if n == 2:
